@@ -111,6 +111,12 @@ CHECKS = {
        "Totality/determinism: all lexeme sequences of length 1-2 over a 52-lexeme hostile alphabet (unterminated quotes, multi-byte letters, 1e, 0x, 20-digit numbers, NUL), seeded longer ones, every byte prefix and seeded byte mutations of stored statements are parsed twice in one process in opposite call order and once in a fresh process; TLC requires no panic, no hang, three identical answers.",
   note=NOTE + "strings are sampled, not all strings; a result returned together with an error is not judged",
   design="6 C16, 3.8"),
+ "C18": dict(
+  technique="TLA+ spec RowScan.tla (outcome table + aliasing model) model-checked; trace validation of recorded Row.Scan calls and lifetime histories by TLC (TraceRowScan.tla)",
+  text="RowScan.tla gives Outcome(kind of stored value, destination) in {value, zero, error, skip} with first-error semantics for multi-destination scans, and a small aliasing model (Read, Scan, Mutate, Commit, Close) whose invariants ReadsSeeFile and Independent TLC checks exhaustively (and refutes when Scan does not copy). "
+       "The real Row.Scan is called on every (grid value x destination incl. nil and unsupported ones) and on random rows of width 0..3 x destination lists of length 0..4; real lifetime histories (scan into []byte/string, overwrite the slice, re-read warm and fresh, close, overwrite the file; in-page and overflowing values) run on SQLite-written files; TLC judges error/no error, zero values, the documented conversion where it is defined independently of Go, no panic, row unchanged, and the lifetime observations.",
+  note=NOTE + "exact results of Go's out-of-range float->int conversion, float formatting and strconv corner syntax are left open ('-'); the text classes (numeric / time / other) are assigned by the generator",
+  design="6 C18, 3.11"),
 }
 
 NOT_YET = "check not built yet (work in progress; see DESIGN.md section 9 order of work)"
